@@ -30,6 +30,16 @@ APPLY_METHODS = ["predict", "predict_proba", "transform", "inverse_transform", "
 EXTERNAL_META = {"sklearn.pipeline.FeatureUnion": "transformer_list",
                  "sklearn.compose.ColumnTransformer": "_transformers",
                  "sklearn.pipeline.Pipeline": "steps"}
+# leading positional parameters of the constructors of classes outside the package that the package
+# calls positionally (signatures of the scikit-learn release sktime 0.6.0 was written against, 0.24)
+EXTERNAL_POSITIONAL = {
+    "sklearn.ensemble._forest.BaseForest": ["base_estimator", "n_estimators", "estimator_params"],
+    "sklearn.ensemble._forest.ForestClassifier": ["base_estimator", "n_estimators", "estimator_params"],
+    "sklearn.ensemble._forest.ForestRegressor": ["base_estimator", "n_estimators", "estimator_params"],
+    "sklearn.neighbors.KNeighborsClassifier": ["n_neighbors"],
+    "sklearn.pipeline.FeatureUnion": ["transformer_list"],
+    "sklearn.compose.ColumnTransformer": ["transformers"],
+}
 ESTIMATOR_ROOTS_EXTERNAL_PREFIX = ("sklearn.",)
 SKTIME_BASE = ("sktime.base._base", "BaseEstimator")
 
@@ -241,6 +251,9 @@ class CtorWalker:
             e = self.expr(s.value)
             if self._effect_in_expr(s.value, line):
                 return
+            if e["k"] == "derived" and any(isinstance(n, ast.Call) for n in ast.walk(s.value)):
+                # a computation on the arguments inside the constructor may reject them
+                self.out.append({"k": "raise", "src": "call in " + src(s.value, 60), "line": line})
             for t in s.targets:
                 self.assign_target(t, e, cond, line)
             return
@@ -665,6 +678,7 @@ def extract(root=None):
                               "file": None, "line": 0, "bases": [], "external": True, "init": None,
                               "class_attrs": [], "methods": {}, "get_params": None, "set_params": None,
                               "dynamic_attr_hooks": []}
+                classes[b]["ext_positional"] = EXTERNAL_POSITIONAL.get(b[4:], [])
                 if b[4:] in EXTERNAL_META:
                     classes[b]["get_params"] = {"meta": EXTERNAL_META[b[4:]]}
                     classes[b]["set_params"] = {"meta": EXTERNAL_META[b[4:]]}
@@ -732,7 +746,8 @@ def to_lean(data, I=None, namespace="SkVerif.Gen"):
         ident = "c%d" % I(key)
         lines = ["/-- %s  (%s:%s) -/" % (key, c["file"], c["line"]),
                  "def %s : ClassEntry Nat := {" % ident,
-                 "  name := %d, external := %s," % (I(key), _b(c["external"])),
+                 "  name := %d, external := %s, extPositional := [%s]," % (
+                     I(key), _b(c["external"]), ", ".join(str(I(x)) for x in c.get("ext_positional", []))),
                  "  mro := [%s]," % ", ".join(str(I(k)) for k in c["mro"])]
         if c["init"] is None:
             lines.append("  init := none,")
